@@ -192,8 +192,14 @@ func (table *Table) DispatchAggregate(buf []byte) {
 	routed := false
 	log.Tracef("table received aggregate packet %s", buf)
 
+	// filters apply to the metric name, not to the value or timestamp
+	name := buf
+	if i := bytes.IndexByte(buf, ' '); i >= 0 {
+		name = buf[:i]
+	}
+
 	for _, route := range conf.routes {
-		if route.Match(buf) {
+		if route.Match(name) {
 			routed = true
 			log.Tracef("table sending to route: %s", buf)
 			route.Dispatch(buf)
